@@ -71,6 +71,7 @@ type Obligation struct {
 type modelProbe struct {
 	Name string
 	Term string
+	At   int // number of unit items that must be visible for the term to be defined
 }
 
 type Unit struct {
